@@ -159,3 +159,18 @@ Definition expected_table_uses : list (string * string * nat) :=
   [("skip_chars", "?", 1); ("skip_chars", "new", 2); ("skip_chars", "scan_delims", 4);
    ("smart_chars", "?", 1); ("smart_chars", "find_special_char", 1); ("smart_chars", "new", 2);
    ("special_chars", "?", 1); ("special_chars", "find_special_char", 1); ("special_chars", "new", 9)].
+
+(* ------------------------------------------------------------------ entry points of the extracted driver:
+   option sets are given as the list of option paths that are on *)
+Definition c13_opts_of (on : list bytes) : opts := fun p => existsb (bytes_eqb (B p)) on.
+
+Definition c13_find_special (on : list bytes) (wb : bool) (input : bytes) (pos : N) : N :=
+  find_special_char (c13_opts_of on) wb input (N.to_nat pos).
+
+Definition c13_select_arm (on : list bytes) (wb : bool) (c : byte) : option nat :=
+  select_arm (c13_opts_of on) wb c.
+
+(* the three tables as 768 flags: special, skip, smart *)
+Definition c13_tables (on : list bytes) : list bool :=
+  let o := c13_opts_of on in
+  map (special_chars o) all_bytes ++ map (skip_chars o) all_bytes ++ map (smart_chars o) all_bytes.
